@@ -231,6 +231,150 @@ Definition vrf_verify_sortition PK Proof p2h := vrf_verify_sortition_with PK Pro
 Definition vrf_verify_priority PK Proof p2h keccak :=
   vrf_verify_priority_with PK Proof p2h keccak choose.
 
+(* ---- the prover-side manager (sortition_mgr.go) --------------------------- *)
+(* What the look-back providers return for a round (getLookBackStake /
+   getLookBackSeed); lb: 0 = LookBackPos, 1 = LookBackStake, 2 = LookBackCert. *)
+Record stake_info := mkSI {
+  si_stake : Z; si_total : Z; si_threshold : Z;
+  si_kind : Z;            (* params.ValidatorKind; 1 = KindChamber *)
+  si_status : Z;          (* 0 = ValidatorOffline *)
+  si_err : bool }.
+
+Definition step_proposal : Z := 1.     (* UConStepProposal *)
+Definition step_certificate : Z := 5.  (* Certificate *)
+Definition kind_chamber : Z := 1.
+Definition lb_pos : Z := 0.
+Definition lb_stake : Z := 1.
+Definition lb_cert : Z := 2.
+(* Voter.vote: LookBackCert for the certificate step, LookBackPos otherwise *)
+Definition lb_of_step (step : Z) : Z := if step =? step_certificate then lb_cert else lb_pos.
+
+Section Manager.
+  Variables SK Proof : Type.
+  Variable evaluate : SK -> list Z -> Z * Proof.
+  Variable keccak : list Z -> Z.
+  Variable sk : SK.
+  Variable env_stake : Z -> bool -> Z -> stake_info.   (* round, isProposer, lb *)
+  Variable env_seed : Z -> Z -> option Z.              (* round, lb *)
+
+  Record view := mkView {
+    v_priority : Z; v_proof : option Proof; v_sub : Z; v_seedvalue : Z;
+    v_kind : Z; v_threshold : Z }.
+
+  (* stepviews: map[RoundIndexHash]StepViews, StepViews = map[step]*StepView;
+     RoundIndexHash = 8 bytes round ++ 4 bytes index, so the key is the triple *)
+  Record mgr := mkMgr { m_round : Z; m_views : list ((Z * Z * Z) * view) }.
+  Definition mgr_init : mgr := mkMgr 0 [].
+
+  Definition key_eqb (a b : Z * Z * Z) : bool :=
+    match a, b with (r, i, s), (r', i', s') => (r =? r') && (i =? i') && (s =? s') end.
+  Fixpoint get_view (l : list ((Z * Z * Z) * view)) (k : Z * Z * Z) : option view :=
+    match l with
+    | [] => None
+    | (k', v) :: r => if key_eqb k k' then Some v else get_view r k
+    end.
+  (* NewStepView *)
+  Definition put_view (s : mgr) (k : Z * Z * Z) (v : view) : mgr :=
+    mkMgr (m_round s) ((k, v) :: m_views s).
+
+  (* ClearStepView *)
+  Definition clear_views (s : mgr) (round : Z) : mgr :=
+    if round =? m_round s then s else mkMgr round [].
+
+  (* ComputeSeed: VRF(preSeed ++ round.Bytes() ++ be32(index)) *)
+  Definition seed_msg (seed round index : Z) : list Z :=
+    be_bytes 32 seed ++ min_be round ++ be_bytes 4 index.
+
+  (* the view built from VrfSortition's result *)
+  Definition view_of (res : Z * option Proof * Z) (kind threshold : Z) : view :=
+    match res with
+    | (value, proof, sub) =>
+      mkView (compute_priority keccak value sub) proof sub 0 kind threshold
+    end.
+
+  (* what isProposer computes on a cache miss: None = (false, nil) *)
+  Definition fresh_proposer (round index : Z) : option view :=
+    let si := env_stake round true lb_stake in
+    if si_err si then None
+    else if negb (si_kind si =? kind_chamber) then None
+    else match env_seed round lb_pos with
+         | None => None
+         | Some seed =>
+           match vrf_sortition SK Proof evaluate sk seed index step_proposal
+                               (si_threshold si) (si_stake si) (si_total si) with
+           | None => None
+           | Some res =>
+             let v := view_of res (si_kind si) (si_threshold si) in
+             if 0 <? v_sub v then
+               Some (mkView (v_priority v) (v_proof v) (v_sub v)
+                            (fst (evaluate sk (seed_msg seed round index)))
+                            (v_kind v) (v_threshold v))
+             else Some v
+           end
+         end.
+
+  Definition is_proposer (s : mgr) (round index : Z) : mgr * (bool * option view) :=
+    match get_view (m_views s) (round, index, step_proposal) with
+    | Some v => (s, if 0 <? v_sub v then (true, Some v) else (false, None))
+    | None =>
+      match fresh_proposer round index with
+      | None => (s, (false, None))
+      | Some v =>
+        if 0 <? v_sub v then (put_view s (round, index, step_proposal) v, (true, Some v))
+        else (s, (false, Some v))
+      end
+    end.
+
+  (* what isValidator stores on a cache miss, and what it returns *)
+  Definition fresh_validator (round index step lb : Z) : option view * (bool * option view) :=
+    let si := env_stake round false lb in
+    if (si_status si =? 0) || negb (si_kind si =? kind_chamber) then
+      (Some (mkView 0 None 0 0 (si_kind si) (si_threshold si)), (false, None))
+    else if si_err si || (si_total si <=? 0) then (None, (false, None))
+    else match env_seed round lb with
+         | None => (None, (false, None))
+         | Some seed =>
+           match vrf_sortition SK Proof evaluate sk seed index step
+                               (si_threshold si) (si_stake si) (si_total si) with
+           | None => (None, (false, None))
+           | Some res =>
+             let v := view_of res (si_kind si) (si_threshold si) in
+             (Some v, (0 <? v_sub v, Some v))
+           end
+         end.
+
+  Definition is_validator (s : mgr) (round index step lb : Z) : mgr * (bool * option view) :=
+    match get_view (m_views s) (round, index, step) with
+    | Some v => (s, (0 <? v_sub v, Some v))
+    | None =>
+      match fresh_validator round index step lb with
+      | (Some v, out) => (put_view s (round, index, step) v, out)
+      | (None, out) => (s, out)
+      end
+    end.
+
+  Inductive mop :=
+  | OClear (round : Z)
+  | OProposer (round index : Z)
+  | OValidator (round index step : Z)     (* lb = lb_of_step step, as Voter.vote does *)
+  | OGet (round index step : Z).
+
+  Definition mstep (s : mgr) (o : mop) : mgr * (bool * option view) :=
+    match o with
+    | OClear r => (clear_views s r, (false, None))
+    | OProposer r i => is_proposer s r i
+    | OValidator r i st => is_validator s r i st (lb_of_step st)
+    | OGet r i st => (s, (false, get_view (m_views s) (r, i, st)))
+    end.
+
+  Fixpoint mrun (s : mgr) (ops : list mop) : mgr * list (bool * option view) :=
+    match ops with
+    | [] => (s, [])
+    | o :: r => let '(s', out) := mstep s o in
+                let '(s'', outs) := mrun s' r in (s'', out :: outs)
+    end.
+End Manager.
+
 (* ---- correspondence runner ---------------------------------------------- *)
 (* Seat counts are compared within a band: the implementation evaluates the
    distribution function in float64 (and forms 1-p in float64), so its j may
@@ -290,6 +434,12 @@ Definition pv_code (v : pv) : Z :=
   match v with PvResult true => 0 | PvResult false => 6 | PvTotalZero => 1 | PvBadProof => 2
              | PvWrongSeats => 4 | PvPanic => 5 end.
 
+(* per round: what the stub look-back providers of the harness return *)
+Inductive envrec :=
+| mkEnv (stake total pth vth cth kind status : Z) (errstake : bool) (seedpos seedcert : Z) (errseed : bool).
+Inductive obs :=
+| mkObs (flag hasview sub threshold kind seedvalue pth : Z).
+
 Inductive case :=
 (* search(n, f) with f given by its table on 0..n-1 (anything beyond: true) *)
 | CSearch (n : Z) (tbl : list bool) (got : Z)
@@ -305,7 +455,12 @@ Inductive case :=
 | CVerify (seed index role subUsers threshold stake total : Z) (vtbl : list (Z * Z)) (got : Z)
 (* VrfVerifyPriority *)
 | CVerifyPrio (seed index role priority subUsers threshold stake total : Z)
-              (vtbl : list (Z * Z)) (kh : Z) (ktbl : list (Z * Z)) (got : Z).
+              (vtbl : list (Z * Z)) (kh : Z) (ktbl : list (Z * Z)) (got : Z)
+(* a history of the prover-side manager: env per round, VRF values per message,
+   ops, and per op the observed (flag, has view, seats, threshold, kind,
+   SeedValue, output of ProofToHash of the returned proof against the message of
+   the round ASKED for: -1 does not verify, -2 view without proof, -3 no view) *)
+| CMgr (env : list (Z * envrec)) (vtbl : list (Z * Z)) (ops : list mop) (got : list obs).
 
 Definition tbl_fun (tbl : list bool) (h : Z) : bool :=
   if h <? 0 then false else nth (Z.to_nat h) tbl true.
@@ -334,6 +489,68 @@ Definition cands_for (rep : bool) (vtbl : list (Z * Z)) (seed index role thresho
        | Some hv => candidates rep hv stake (p_of threshold total)
        end.
 
+(* stub providers of the harness, from the per-round table *)
+Fixpoint env_get (env : list (Z * envrec)) (r : Z) : option envrec :=
+  match env with
+  | [] => None
+  | (r', e) :: t => if r =? r' then Some e else env_get t r
+  end.
+Definition env_stake_tbl (env : list (Z * envrec)) (r : Z) (isprop : bool) (lb : Z) : stake_info :=
+  match env_get env r with
+  | None => mkSI 0 0 0 0 0 true
+  | Some (mkEnv stake total pth vth cth kind status errstake _ _ _) =>
+    if errstake then mkSI 0 0 0 0 0 true
+    else mkSI stake total (if isprop then pth else if lb =? lb_cert then cth else vth) kind status false
+  end.
+Definition env_seed_tbl (env : list (Z * envrec)) (r : Z) (lb : Z) : option Z :=
+  match env_get env r with
+  | None => None
+  | Some (mkEnv _ _ _ _ _ _ _ _ seedpos seedcert errseed) =>
+    if errseed then None else Some (if lb =? lb_cert then seedcert else seedpos)
+  end.
+
+(* table VRF whose proof names the message it was made for *)
+Definition ev_mgr (vtbl : list (Z * Z)) (_ : unit) (m : list Z) : Z * Z :=
+  (match assoc_bytes m vtbl with Some v => v | None => -1 end, bytes_key m).
+Definition p2h_mgr (vtbl : list (Z * Z)) (m : list Z) (pr : Z) : Z :=
+  if pr =? bytes_key m then match assoc_bytes m vtbl with Some v => v | None => -1 end else -1.
+
+Definition obs_eqb (a b : obs) : bool :=
+  match a, b with
+  | mkObs a1 a2 a3 a4 a5 a6 a7, mkObs b1 b2 b3 b4 b5 b6 b7 =>
+    (a1 =? b1) && (a2 =? b2) && (a3 =? b3) && (a4 =? b4) && (a5 =? b5) && (a6 =? b6) && (a7 =? b7)
+  end.
+
+(* the message a view returned for op [o] must verify against *)
+Definition asked_msg (env : list (Z * envrec)) (o : mop) : option (list Z) :=
+  match o with
+  | OClear _ => None
+  | OProposer r i =>
+    match env_seed_tbl env r lb_pos with Some sd => Some (make_m sd step_proposal i) | None => None end
+  | OValidator r i st | OGet r i st =>
+    match env_seed_tbl env r (if st =? step_proposal then lb_pos else lb_of_step st) with
+    | Some sd => Some (make_m sd st i) | None => None end
+  end.
+
+Definition obs_of (env : list (Z * envrec)) (vtbl : list (Z * Z)) (o : mop)
+           (out : bool * option (view Z)) : obs :=
+  match out with
+  | (flag, None) => mkObs (if flag then 1 else 0) 0 0 0 0 0 (-3)
+  | (flag, Some v) =>
+    mkObs (if flag then 1 else 0) 1 (v_sub Z v) (v_threshold Z v) (v_kind Z v) (v_seedvalue Z v)
+          (match v_proof Z v with
+           | None => -2
+           | Some pr => match asked_msg env o with Some m => p2h_mgr vtbl m pr | None => -1 end
+           end)
+  end.
+
+Fixpoint obs_all_eqb (a b : list obs) : bool :=
+  match a, b with
+  | [], [] => true
+  | x :: r, y :: r' => obs_eqb x y && obs_all_eqb r r'
+  | _, _ => false
+  end.
+
 Definition case_ok (rep : bool) (c : case) : bool :=
   match c with
   | CSearch n tbl got => search n (tbl_fun tbl) =? got
@@ -360,6 +577,12 @@ Definition case_ok (rep : bool) (c : case) : bool :=
                           (fun _ _ _ => cj) tt seed index role tt priority subUsers
                           threshold stake total) =? got)
             (cands_for rep vtbl seed index role threshold stake total)
+  | CMgr env vtbl ops got =>
+    (* stakes of manager histories are tiny and the hashes uniform: the exact
+       seat count is used (no band) *)
+    let outs := snd (mrun unit Z (ev_mgr vtbl) (fun _ => 0) tt
+                          (env_stake_tbl env) (env_seed_tbl env) (mgr_init Z) ops) in
+    obs_all_eqb (map (fun oo => obs_of env vtbl (fst oo) (snd oo)) (combine ops outs)) got
   end.
 
 Fixpoint mismatches_from (rep : bool) (i : N) (l : list case) : list N :=
